@@ -223,6 +223,9 @@ def run(chk):
     d3(chk, prog)
     d4(chk, prog, [2, 3] if chk.tier == "quick" else [1, 2, 3, 4, 5, 6])
     d5(chk, prog)
+    chk.clause("D6", "the stated sample sex reaches the computation: verify_sample_sex (C15 rule)")
+    from . import C15
+    C15.d3c_stated_sex(chk, prog)
 
 
 _C = "cnvlib/call.py"
